@@ -126,6 +126,16 @@ theorem C02_response_is_finish (W : WriterSafe) (cfg : Cfg) (hcfg : CfgWF cfg)
     ∃ w mac, W.I w ∧ Writer.finish w macFn = .ok (b, mac) :=
   C01.C01_response_is_finished_writer W cfg hcfg tr now bufLen req henv b h
 
+/-- … with the writer's own theorems (`QV.Writer.writerSafe`, C12/C13) for `W`: a response is the
+    output of `finish` on a state satisfying the writer invariant `QV.Writer.I`, and it is not longer
+    than the limit in effect (C12 (b)) -/
+theorem C02_response_is_finish_holds (cfg : Cfg) (hcfg : CfgWF cfg)
+    (tr : Transport) (now bufLen : Nat) (req b : Bytes) (henv : EnvOK cfg tr now bufLen req)
+    (h : handleMessage cfg tr now bufLen req = .ok (some b)) :
+    ∃ w mac, Writer.I w ∧ Writer.finish w macFn = .ok (b, mac) ∧ b.size ≤ w.limit := by
+  obtain ⟨w, mac, hi, hf⟩ := C02_response_is_finish Writer.writerSafe cfg hcfg tr now bufLen req b henv h
+  exact ⟨w, mac, hi, hf, Writer.finish_size_le_limit macFn w hi.inv b mac hf⟩
+
 /-- the writer's refinement theorem in the form C02 needs (to be discharged from C12): whatever
     `finish` returns from an invariant state decodes completely under the independent decoder, with
     the writer's counts, and the additional section ends with the pseudo-records `finish` appends —
